@@ -470,11 +470,25 @@ pub fn run(args: &Args) -> Report {
         for mount in ["registry", "struct"] {
             let rec = Arc::new(Mutex::new(vec![]));
             let reg = Arc::new(Registry::new());
-            let router = if mount == "registry" { Router::new().with_registry(prefix, reg.clone()) } else { Router::new().with_struct(prefix, Recorder { seen: rec.clone() }).0 };
-            let norm_prefix = if mount == "registry" { prefix.trim_end_matches('/') } else { prefix };
             if prefix.ends_with('/') && mount == "struct" {
                 continue; // trailing-slash struct roots: unspecified
             }
+            let norm_prefix = if mount == "registry" { prefix.trim_end_matches('/') } else { prefix };
+            // the mount alone, and the mount next to OTHER mounts whose prefixes sort right around it (a sibling continuing with a
+            // character below '/', one continuing with a letter, a nested one, an unrelated one), registered before and after it:
+            // which mount owns a path depends on that mount's prefix only
+            for neighbours in 0..3u8 {
+            let base = if mount == "registry" { Router::new().with_registry(prefix, reg.clone()) } else { Router::new().with_struct(prefix, Recorder { seen: rec.clone() }).0 };
+            let other = |r: Router, p: String| if mount == "registry" { r.with_struct(&p, Recorder { seen: Arc::new(Mutex::new(vec![])) }).0 } else { r.with_registry(&p, Arc::new(Registry::new())) };
+            let sibs = [format!("{norm_prefix}-v2"), format!("{norm_prefix}.x"), format!("{norm_prefix}zz"), format!("{norm_prefix}/nested/deeper"), "/unrelated".to_string(), format!("{norm_prefix} b")];
+            let router = match neighbours {
+                0 => base,
+                1 => sibs.iter().fold(base, |r, p| other(r, p.clone())),
+                _ => {
+                    let first = sibs.iter().fold(Router::new(), |r, p| other(r, p.clone()));
+                    if mount == "registry" { first.with_registry(prefix, reg.clone()) } else { first.with_struct(prefix, Recorder { seen: rec.clone() }).0 }
+                }
+            };
             let cands = [
                 norm_prefix.to_string(),
                 format!("{norm_prefix}/c"),
@@ -495,10 +509,16 @@ pub fn run(args: &Args) -> Report {
                 boundary += 1;
                 rep.distinct(&("boundary", prefix, mount, &p));
                 let want = p == norm_prefix || p.strip_prefix(norm_prefix).is_some_and(|rest| rest.starts_with('/'));
+                // with neighbours a path may also belong to one of THEM; only paths the mount under test owns are judged then
+                let owned_by_neighbour = neighbours > 0 && sibs.iter().any(|sp| p == *sp || p.strip_prefix(sp.as_str()).is_some_and(|rest| rest.starts_with('/')));
+                if owned_by_neighbour {
+                    continue;
+                }
                 let got = router.get(&p).is_some();
                 if got != want {
-                    rep.violation(format!("C07:prefix-boundary:{mount}"), format!("{mount} mounted at {prefix:?}: get({p:?}) matched={got}, expected {want}"), json!({"prefix": prefix, "path": p}));
+                    rep.violation(format!("C07:prefix-boundary:{mount}{}", if neighbours > 0 { ":with-neighbouring-mounts" } else { "" }), format!("{mount} mounted at {prefix:?} (neighbouring mounts: {}): get({p:?}) matched={got}, expected {want}", if neighbours == 0 { "none".to_string() } else { format!("{sibs:?} registered {}", if neighbours == 1 { "after" } else { "before" }) }), json!({"prefix": prefix, "path": p, "neighbours": neighbours}));
                 }
+            }
             }
         }
     }
